@@ -936,10 +936,31 @@ def correspond(ctx, model):
     check_matnorm(ctx, model, np.diag([1.0, -3.0, 2.0]))
 
 
+def witness_zero_operator():
+    """known finding `estimators-zero-operator`: for the zero operator the estimators silently return values that
+    violate the documented strict inequalities (tau = sigma = inf, tau*sigma*||C||^2 = NaN; mu = 0, not > ||A||^2 = 0)"""
+    import scico.numpy as snp
+    from scico.linop import MatrixOperator
+    from scico.optimize import PDHG, ProximalADMM
+
+    Z = MatrixOperator(snp.zeros((2, 3), dtype=np.float64))
+    r1 = _impl(lambda: PDHG.estimate_parameters(Z, maxiter=5, key=G.make_key(1)))
+    r2 = _impl(lambda: ProximalADMM.estimate_parameters(Z, maxiter=5, key=G.make_key(1)))
+    if r1[0] != "ok" or r2[0] != "ok":
+        return False, f"now rejected: {r1[1:] if r1[0] == 'err' else ''} {r2[1:] if r2[0] == 'err' else ''}"
+    tau, sigma = (_scalar(v) for v in r1[1])
+    mu, nu = (_scalar(v) for v in r2[1])
+    bad_pdhg = not (math.isfinite(tau) and math.isfinite(sigma)) or not (tau * sigma * 0.0 < 1.0)
+    bad_padmm = not mu > 0.0
+    return bool(bad_pdhg and bad_padmm), f"tau={tau} sigma={sigma} mu={mu} nu={nu}"
+
+
 def findings(ctx, model):
-    """no listed finding of the current tree concerns C17: the four defects found (PDHG factor, maxiter=0,
-    Diagonal.norm broadcast / block) were repaired - `fixed:` lines of known_findings.txt; the witnesses are
-    regression cases in corpus/C17"""
+    """the defects found earlier (PDHG factor, maxiter=0, Diagonal.norm broadcast / block) were repaired - `fixed:` lines
+    of known_findings.txt, witnesses are regression cases in corpus/C17.  Recorded: `estimators-zero-operator`."""
+    common.setup_scico()
+    still, detail = witness_zero_operator()
+    ctx.known_finding("estimators-zero-operator", still, detail)
     return None
 
 
